@@ -116,9 +116,18 @@ def script_strings(path, last_only=False):
     return out[-1:] if last_only else out
 
 
+EVENT = re.compile(r"\[([^\]]*)\]")
+FIELD = re.compile(r", (?=\w+ \|->)")
+
+
+def normal(t):
+    """TLC prints the fields of a record in one order when it is made and in another once it was compared: sort them"""
+    return EVENT.sub(lambda m: "[" + ", ".join(sorted(FIELD.split(m.group(1)))) + "]", t)
+
+
 def maximal(strs):
     """scripts that are not the beginning of another script (a script is printed as <<e1, e2, ...>>)"""
-    heads = sorted(t[:-2] for t in strs)
+    heads = sorted(normal(t)[:-2] for t in strs)
     out = []
     for t in heads:
         p = t + ", "
@@ -214,6 +223,10 @@ class Judge:
             if n != c["local"] and (a + 1 < len(sel_pos) or x["winner"] != n) and (1, n) not in ev[j + 1:end]:
                 stalled = True
         if len(c["listing"]) == 1 and chain[0] != c["local"] and (1, chain[0]) not in ev:
+            stalled = True
+        # the same when the call ran into its deadline: without scripted failures it takes some 40 ms of an 8 s wait;
+        # with them the first proposer is retried for one wait (1.5 s) and the others get one more
+        if x.get("wait_ms") and x["ms"] >= (1 if c["nfail"] == 0 else 2) * x["wait_ms"] - 100:
             stalled = True
         if stalled:
             self.skipped += 1
@@ -312,6 +325,8 @@ def judge_script(J, ctx, sc, row, stats):
         cv = {"listing": e["listing"], "h": e["h"], "r": e["r"], "hs": e["hs"], "local": e["loc"], "nfail": e["nfail"],
               "chain": e["chain"], "winner": e["winner"], "order": sc["order"]}
         ct = dict(cv, listing=r["twin_listing"], local=r["twin_local"])
+        if again and e["nfail"] > 0:      # it finds the proposal it got then in its pool and does not go on to other nodes
+            cv.pop("chain"), cv.pop("winner")
         if r["twin_local"] != e["loc"] and e["nfail"] > 0:      # the specification's continuation depends on who is local
             ct.pop("chain"), ct.pop("winner")
         case = {"script": script[:i + 1], "selection": e, "long_lived_selector": r["vet"],
@@ -365,6 +380,8 @@ def run(ctx):
                 steps.append(c2)
     hcfg = "Proposer_hist_quick.cfg" if quick else "Proposer_hist_thorough.cfg"
     scripts = hist_scripts(ctx, hcfg)
+    if not quick:       # selections for older heights and in any order, exhaustive for 3 nodes
+        scripts += hist_scripts(ctx, "Proposer_hist_late.cfg")
     nhex = len(scripts)
     lap("tlc_histories_exhaustive")
     scripts += hist_scripts(ctx, "Proposer_hist_sim.cfg", sim=(60 if quick else 600, 30))
@@ -376,8 +393,10 @@ def run(ctx):
                 "behaviour with 1..64 nodes; non-trivial = at least 2 nodes listed; distinct by the whole case. "
                 "histories: one case per selection of a script, distinct by the script up to it (chain of suffrages by block height, "
                 "selections before it); exhaustive = every maximal script of %s (%d nodes, %d blocks after genesis, %d long-lived selector "
-                "object(s)); seeded = one script per -simulate behaviour of Proposer_hist_sim.cfg; non-trivial = put to a selector object "
-                "that was asked before, at least 2 nodes listed" % (4 if quick else 5, cfg, hcfg, kh["N"], kh["MaxBlocks"], kh["NSel"]))
+                "object(s))%s; seeded = one script per -simulate behaviour of Proposer_hist_sim.cfg; non-trivial = put to a selector object "
+                "that was asked before, at least 2 nodes listed" % (
+                    4 if quick else 5, cfg, hcfg, kh["N"], kh["MaxBlocks"], kh["NSel"],
+                    "" if quick else " and of Proposer_hist_late.cfg (3 nodes, selections for any height that has a previous block, in any order)"))
     cin = os.path.join(ctx.work, "cases.ndjson")
     cout = os.path.join(ctx.work, "res.ndjson")
     keep = ("k", "g", "suf", "hs", "sel", "loc", "h", "r", "listing", "nfail")
